@@ -192,7 +192,7 @@ def oracle(seed, tier):
 
 def correspondence(seed, tier):
     n = budget(tier, 25, 300)
-    rs = [corr.run_corr(seed * 1000 + 200 + k, "C20_%d" % k, n, 25, {"with_random": False, "with_lines": True, "allow": ["oceanic plate", "oceanic plate", "continental plate", "mantle layer", "subducting plate", "fault"]}) for k in range(budget(tier, 1, 3))]
+    rs = [corr.run_corr(seed * 1000 + 200 + k, "C20_%d" % k, n, 25, {"with_random": False, "with_lines": True, "allow": ["oceanic plate", "oceanic plate", "continental plate", "mantle layer", "subducting plate", "fault"], "slab_models": 0.5}) for k in range(budget(tier, 1, 3))]
     return summarize_corr(rs)
 
 
